@@ -49,6 +49,10 @@ def build_doc(rng):
         else:
             keys = list(range(k))
         texts = [rng.choice("abcXYZ") + gen.hostile_text(rng, maxparts=2, allow_ws_edges=False, allow_empty=True) for _ in keys]
+        hole = None
+        if kind == "strings" and k >= 3 and rng.random() < 0.4:
+            hole = rng.randrange(0, k - 1)       # a reserved slot: an EnumStrings entry without text; the later entries keep their numbers
+            texts[hole] = ""
         dt_id, prop_id = nid, nid + 1
         nid += 2
         refs = '<Reference ReferenceType="i=45" IsForward="false">i=29</Reference>'
@@ -83,7 +87,7 @@ def build_doc(rng):
                        '<Value><ListOfExtensionObject xmlns="%s">%s</ListOfExtensionObject></Value></UAVariable>' % (prop_id, dt_id, T, items))
         if kind == "values":
             texts = [t.strip() for t in texts]          # xmltodict strips the text of EnumValueType bodies
-        enums.append({"dt": dt_id, "kind": kind, "name": name, "dict": dict(zip(keys, texts))})
+        enums.append({"dt": dt_id, "kind": kind, "name": name, "dict": {k_: t_ for k_, t_ in zip(keys, texts) if k_ != hole}})
     expect = {}
     for v in range(rng.randint(1, 7)):
         vid = nid
